@@ -121,7 +121,13 @@ def handler : Handler S where
             (fun p => p.2.filter (fun x => (earlyItems t).contains x && !s.stored.contains x))
         else []
       let intr := intr.mergeSort (· ≤ ·)
-      let obs := s!"obs verdict returned={if v.returned then 1 else 0} undrained={showIds und} unrecovered={showIds unrec} interrupted={showIds intr} dup={showIds v.duplicated} open={showIds v.openCalls} late={showIds v.lateCalls}"
+      -- … and, when they are in storage, the next start must deliver them
+      let intrUnrec : List Nat :=
+        if s.persistent && s.retry && t.any isShutReq then
+          ((lastOf.filter (fun p => s.ends.any (fun e => e.1 == p.1 && e.2.1 && !e.2.2.1 && e.2.2.2))).flatMap
+            (fun p => p.2.filter (fun x => (earlyItems t).contains x && s.stored.contains x && !s.recovered.contains x))).mergeSort (· ≤ ·)
+        else []
+      let obs := s!"obs verdict returned={if v.returned then 1 else 0} undrained={showIds und} unrecovered={showIds unrec} interrupted={showIds intr} intrunrec={showIds intrUnrec} dup={showIds v.duplicated} open={showIds v.openCalls} late={showIds v.lateCalls}"
       let pReturned := if v.returned then "prop returns=ok" else s!"prop returns=FAIL sig=C03/shutdown/never-returns queue={kind} batch={s.batch}"
       let pDrained :=
         if !v.returned || und.isEmpty then "prop drained=ok"
@@ -130,6 +136,9 @@ def handler : Handler S where
       let pIntr :=
         if !v.returned || intr.isEmpty then "prop interrupted=ok"
         else s!"prop interrupted=FAIL sig=C03/persistent/shutdown-interrupted-item-not-stored items={showIds intr} batch={s.batch}"
+      let pIntrRec :=
+        if !v.returned || intrUnrec.isEmpty then "prop interrupted_redelivered=ok"
+        else s!"prop interrupted_redelivered=FAIL sig=C03/persistent/shutdown-interrupted-item-not-redelivered-by-next-start items={showIds intrUnrec} batch={s.batch}"
       let pRecover :=
         if !v.returned || unrec.isEmpty then "prop redelivered=ok"
         else s!"prop redelivered=FAIL sig=C03/persistent/stored-item-not-redelivered-by-next-start items={showIds unrec} batch={s.batch}"
@@ -162,7 +171,7 @@ def handler : Handler S where
       let pStore := match s.uac with
         | some op => s!"prop storage=FAIL sig=C03/persistent/storage-used-after-close op={op}"
         | none => "prop storage=ok"
-      [obs, pReturned, pDrained, pIntr, pRecover, pOnce, pQuiet, pStore, pRefine]
+      [obs, pReturned, pDrained, pIntr, pIntrRec, pRecover, pOnce, pQuiet, pStore, pRefine]
 
 end OtelVerif.Drivers.C03
 
